@@ -101,18 +101,14 @@ FIRST_MSG = "First() called on an empty sequence"
 
 
 def fault_matches(kind: str, ob: Dict[str, Any], backend: str) -> bool:
-    st, what = ob["status"], ob.get("what") or ""
-    if kind == "first_empty":
-        return st == "THROW" and FIRST_MSG in what
-    if kind == "index_range":
-        return st == "THROW" and ("range" in what.lower())
-    if kind == "missing_bank":
-        if backend == "atlas":
-            return st == "FAILURE" and not ob["rows"]
-        return st == "THROW" and "ProductNotFound" in what
-    if kind == "missing_attribute":
-        return st == "THROW"
-    return False
+    """A fault is 'loud' when the framework sees it: an exception leaving the per-event method or
+    (ATLAS) a FAILURE status.  WHICH of several faults of one event fires first is not fixed by the
+    property (the columns of a row have no evaluation order), so any loud ending matches; a crash
+    that only a sanitizer would notice (status CRASH) or a normal ending does not."""
+    st = ob["status"]
+    if kind == "missing_bank" and backend == "atlas":
+        return st == "FAILURE" and not ob["rows"]
+    return st in ("THROW", "FAILURE")
 
 
 def compare_event(ref, ob: Optional[Dict[str, Any]], backend: str, tol: float) -> Optional[str]:
